@@ -70,6 +70,8 @@ pub enum Deco {
     Mid(ANode),
     Post(ANode),
     BareDoctype(bool),
+    /// external identifier of the DOCTYPE: (public, system)
+    ExternalId(Option<&'static str>, &'static str),
 }
 
 #[derive(Clone, Debug)]
@@ -213,6 +215,9 @@ pub fn doc_menu(root_name: &str) -> Vec<LDeco> {
     push("post-pi", Deco::Post(ANode::PI("q".into(), None)));
     push("doctype-bare", Deco::BareDoctype(false));
     push("doctype-empty-subset", Deco::BareDoctype(true));
+    // an external identifier, alone and (as a second decoration) together with every declaration of the internal subset
+    push("doctype-system", Deco::ExternalId(None, "r.dtd"));
+    push("doctype-public", Deco::ExternalId(Some("-//X//DTD r//EN"), "http://x.example/r.dtd"));
     push("decl-entity", Deco::Decl(ent("e", t("v"))));
     push("decl-entity-empty", Deco::Decl(ent("e0", vec![])));
     push("decl-entity-quotes", Deco::Decl(ent("eq", t("it's"))));
@@ -391,6 +396,7 @@ pub fn apply(skel: &AElem, decos: &[&LDeco]) -> ADoc {
     let mut d = doc(skel.clone());
     let mut decls: Vec<ADecl> = vec![];
     let mut bare: Option<bool> = None;
+    let mut ext: Option<(Option<String>, String)> = None;
     for ld in decos {
         match &ld.deco {
             Deco::Rename(i, name) => with_elem(&mut d.root, *i, |e| e.name = name.to_string()),
@@ -417,10 +423,11 @@ pub fn apply(skel: &AElem, decos: &[&LDeco]) -> ADoc {
             Deco::Mid(n) => d.mid.push(n.clone()),
             Deco::Post(n) => d.post.push(n.clone()),
             Deco::BareDoctype(s) => bare = Some(*s),
+            Deco::ExternalId(p, sys) => ext = Some((p.map(|x| x.to_string()), sys.to_string())),
         }
     }
     // a root rename must carry over to declarations that name the root's element type
-    if !decls.is_empty() || bare.is_some() {
+    if !decls.is_empty() || bare.is_some() || ext.is_some() {
         let root_name = d.root.name.clone();
         for dc in decls.iter_mut() {
             match dc {
@@ -430,7 +437,11 @@ pub fn apply(skel: &AElem, decos: &[&LDeco]) -> ADoc {
             }
         }
         let subset = bare.unwrap_or(false) || !decls.is_empty();
-        d.doctype = Some(ADoctype { name: root_name, public: None, system: None, decls, subset });
+        let (public, system) = match ext {
+            Some((p, s)) => (p, Some(s)),
+            None => (None, None),
+        };
+        d.doctype = Some(ADoctype { name: root_name, public, system, decls, subset });
     }
     if d.doctype.is_none() && !d.mid.is_empty() {
         // without a DOCTYPE there is no "mid" region: the items simply precede the root
